@@ -275,6 +275,8 @@ func runC19(rep *Report, r *Rng, tier string) {
 			for _, sig := range []syscall.Signal{syscall.SIGTERM, syscall.SIGINT} {
 				terminatedCreate(rep, "C19", big, sig)
 			}
+			terminatedCreateX(rep, "C19", big, syscall.SIGINT, true)
+			terminatedCreateX(rep, "C19", big, 0, false)
 		}
 	}()
 	rep.Rule = "the built `updog create` binary on generated CSV files (headers with spaces, upper case, digits, punctuation, non-ASCII incl. U+0130/U+212A; fields with quotes, commas, newlines, non-ASCII, empty; 0..100 records) x {normal, --big} x output {absent, arbitrary file, valid index}; malformed CSVs (ragged, bare/unterminated quotes, empty file); exit status under a watchdog; output opened with OpenIndex: schema and probes compared with the model (Lean normalizeHeader + record i = row i); SHA-256 of a pre-existing output unchanged; thorough: header normalisation compared over all 1,114,112 code points and all 256 single bytes; non-trivial = well-formed CSV with >= 1 record; distinct by (file content, mode, output state)"
